@@ -13,6 +13,7 @@ import (
 	"github.com/ipld/go-ipld-prime/datamodel"
 	"github.com/ipld/go-ipld-prime/node/basicnode"
 	"github.com/ipld/go-ipld-prime/traversal"
+	mh "github.com/multiformats/go-multihash"
 
 	"verif/sim/gen"
 	"verif/sim/store"
@@ -446,6 +447,14 @@ func corruptBlock(res *Result, st *store.Store, info map[string]*blockInfo, orde
 		// identity CID, a CID with a codec nothing is registered for
 		extra := gen.PutRaw(st, []byte("stray raw block"))
 		cands = append(cands, extra)
+		// ... and the smallest decodable dag-pb blocks there are: the empty
+		// block (no Data field, no links) and one whose Data is empty
+		for _, mini := range [][]byte{{}, {0x0a, 0x00}} {
+			if mc, err := (cid.Prefix{Version: 1, Codec: cid.DagProtobuf, MhType: mh.SHA2_256, MhLength: 32}).Sum(mini); err == nil {
+				st.Put(mc, mini)
+				cands = append(cands, mc)
+			}
+		}
 		i := int(a % uint64(len(rn.Links)))
 		switch b % 4 {
 		case 0, 1:
